@@ -51,9 +51,9 @@ def toPortD : SExp → Option PortD
   | _ => none
 
 def toClass : SExp → Option ClassD
-  | .list [.atom "class", .atom n, .list (.atom "ports" :: ps), .list (.atom "state" :: st), .list (.atom "consts" :: cs),
+  | .list [.atom "class", .atom n, .list (.atom "ports" :: ps), .list (.atom "state" :: st), .list (.atom "inits" :: ini), .list (.atom "consts" :: cs),
            .list (.atom "params" :: pr), sq, .atom clk, body] => do
-      some { name := n, ports := ← ps.mapM toPortD, state := ← toPairsI st, consts := ← toPairsI cs, params := ← toPairsI pr,
+      some { name := n, ports := ← ps.mapM toPortD, state := ← toPairsI st, inits := ← toPairsI ini, consts := ← toPairsI cs, params := ← toPairsI pr,
              isSeq := (← V.nat? sq) != 0, clk := clk, body := ← toStmt body }
   | _ => none
 
